@@ -187,3 +187,62 @@ Definition c11_live (toks : list (list N)) : list (list N) :=
     live_run (S (length ops)) T cap {| lw := winit; lnow := 0; lq := [] |} ops
   | _ => REJECT_TOK
   end.
+
+(* ---------------- C03 ---------------- *)
+From TT Require Import Model.IpStd Generated.GlobalIp Model.ConnectPolicy Spec.IanaSpecial.
+
+Definition addr_of_bytes (b : list N) : addr :=
+  {| afam := if lenN b =? 4 then 4 else 6; aip := be b |}.
+
+Definition c03_is_global (toks : list (list N)) : list (list N) :=
+  [map (fun b => if is_global_ip (addr_of_bytes b) then 1 else 0) toks].
+
+(* spec verdict per address: 0 = must be refused, 1 = must be allowed, 2 = unconstrained *)
+Definition c03_spec (toks : list (list N)) : list (list N) :=
+  [map (fun b =>
+          let a := addr_of_bytes b in
+          if afam a =? 4 then (if in_ranges (aip a) non_global_v4 then 0 else 1)
+          else if special_v6 (aip a) then 0 else if global_unicast_v6 (aip a) then 1 else 2) toks].
+
+Definition c03_ranges (toks : list (list N)) : list (list N) :=
+  map (fun r => [fst r; snd r]) non_global_v4.
+
+Fixpoint split17 (fuel : nat) (l : list N) : list addr :=
+  match fuel with
+  | O => []
+  | S f => match l with
+           | [] => []
+           | fam_ :: rest =>
+             {| afam := fam_; aip := be (if fam_ =? 4 then dropN 12 (takeN 16 rest) else takeN 16 rest) |}
+             :: split17 f (dropN 16 rest)
+           end
+  end.
+
+Definition render_decision (d : decision) : list (list N) :=
+  match d with
+  | ConnectTo a => [[0; afam a]; if afam a =? 4 then to_be 4 (aip a) else to_be 16 (aip a)]
+  | RefuseLoopback => [[1]; []]
+  | RefuseNonroutable => [[2]; []]
+  | ResolveFailed => [[5]; []]
+  end.
+
+(* in: [allow; v6ok] then per destination: [kind] payload answers(17 bytes each) *)
+Fixpoint c03_connect_go (fuel : nat) (allow v6ok : bool) (ds : list (list N)) : list (list N) :=
+  match fuel with
+  | O => []
+  | S f =>
+    match ds with
+    | [kind] :: payload :: answers :: rest =>
+      render_decision
+        (if kind =? 1 then decide_literal allow (addr_of_bytes payload)
+         else decide_hostname allow v6ok (split17 (length answers) answers))
+      ++ c03_connect_go f allow v6ok rest
+    | _ => []
+    end
+  end.
+
+Definition c03_connect (toks : list (list N)) : list (list N) :=
+  match toks with
+  | [a; v] :: ds => c03_connect_go (length ds) (a =? 1) (v =? 1) ds
+  | _ => REJECT_TOK
+  end.
